@@ -57,15 +57,17 @@ def build_one(conf):
     feats = "std,num-order,serde" if std else "num-order,serde"
     # In a trial (VERIF_REPO = scratch copy) core.cargo_build creates a shadow manifest directory on first use
     # (`if not islink: os.symlink`); the configurations are built in parallel, so two threads can both find the link missing
-    # and the loser raises FileExistsError - which used to end the whole check with a traceback (exit 1, no verdict line;
+    # and the loser raises FileExistsError / FileNotFoundError - which used to end the whole check with a traceback (exit 1, no verdict line;
     # seen with seeded/C19-7).  Retry (the link exists by then); any other exception is this configuration's build failure.
-    for attempt in (0, 1, 2):
+    for attempt in range(6):
         try:
             rc, out, bindir, dt = core.cargo_build(profile="dev" if dev else "release", cfgs=tuple(cfgs), features=feats,
                                                    target_sub=target_dir(conf), bins=["exec_cfg"])
             break
-        except FileExistsError:
-            time.sleep(0.2)
+        except (FileExistsError, FileNotFoundError):
+            # (FileNotFoundError: two threads writing the same shadow file through a temporary name, `os.replace` of the loser -
+            # seen in the trial of seeded/C19-7; once one writer is through, the files are found unchanged and nobody writes)
+            time.sleep(0.3 * (attempt + 1))
             continue
         except Exception as e:
             return conf, "!exception_" + re.sub(r"[^A-Za-z0-9_.:/\-]+", "_", repr(e))[:150], 0.0, repr(e)
